@@ -33,7 +33,18 @@ S15B = {'entities': [
     {'attrs': [PK, A_ref(1, 2, required=True), A_ref(0, 2)], 'ckeys': []},
     {'attrs': [PK, A_set(1, 3)], 'ckeys': []},
 ]}
-SCHEMAS = {'S15': S15, 'S15B': S15B}
+# several relationships of different kinds on one entity, the cascading / clearing ones declared BEFORE a refusing one-to-one:
+# one-to-many cascade (a01), many-to-many (a02), one-to-one cascade (a03, with a child below the dependent), then the refusal (a04)
+S15C = {'entities': [
+    {'attrs': [PK, A_set(1, 1), A_set(2, 1), A_ref(3, 1, cascade=True), A_ref(4, 1)], 'ckeys': []},
+    {'attrs': [PK, A_ref(0, 1, required=True), A_set(5, 1)], 'ckeys': []},        # cascading child (with grandchildren E5)
+    {'attrs': [PK, A_set(0, 2)], 'ckeys': []},                                    # many-to-many partner
+    {'attrs': [PK, A_ref(0, 3, required=True), A_set(6, 1)], 'ckeys': []},        # one-to-one dependent, cascaded from E0.a03 (with children E6)
+    {'attrs': [PK, A_ref(0, 4, required=True)], 'ckeys': []},                     # one-to-one dependent without cascade: refuses
+    {'attrs': [PK, A_ref(1, 2, required=True)], 'ckeys': []},
+    {'attrs': [PK, A_ref(3, 2, required=True)], 'ckeys': []},
+]}
+SCHEMAS = {'S15': S15, 'S15B': S15B, 'S15C': S15C}
 
 
 class World15(object):
@@ -94,23 +105,30 @@ class World15(object):
                         elif op[0] == 'del':
                             e = op[2]
                             try: o = get(e, op[1])
-                            except orm.ObjectNotFound: res.append(('gone', '')); continue
+                            except orm.ObjectNotFound: res.append(('gone', '', self._marked(objs))); continue
                             o.delete()
                         elif op[0] == 'bulk':
                             E = self.w.ents[op[1]]
                             ids = list(op[2])
                             E.select(lambda x: x.a00 in ids).delete(bulk=True)
-                        res.append(('ok', ''))
+                        res.append(('ok', '', self._marked(objs)))
                     except (orm.ConstraintError, orm.core.IntegrityError, orm.TransactionIntegrityError) as ex:
-                        res.append(('refused', '%s: %s' % (type(ex).__name__, str(ex)[:160])))
+                        res.append(('refused', '%s: %s' % (type(ex).__name__, str(ex)[:160]), self._marked(objs)))
                     except Exception as ex:
                         # the program catches the exception and goes on (what remains of the session is committed below)
-                        res.append(('error:' + type(ex).__name__, str(ex)[:160]))
+                        res.append(('error:' + type(ex).__name__, str(ex)[:160], self._marked(objs)))
                 orm.commit()
         except Exception as ex:
             commit = ('failed', '%s: %s' % (type(ex).__name__, str(ex)[:200]))
-        while len(res) < len(ops): res.append(('skipped', ''))
+        while len(res) < len(ops): res.append(('skipped', '', []))
         return res, commit
+
+    def _marked(self, objs):
+        """handles of the objects this session holds (directly or through a loaded relationship) whose status says deleted"""
+        out = set()
+        for o in list(self.w.db._get_cache().objects):
+            if o._status_ in ('marked_to_delete', 'deleted', 'cancelled'): out.add(o._pkval_)
+        return sorted(out)
 
     def db_state(self):
         """(objs, links, fk_violations) read through a separate connection"""
